@@ -16,7 +16,7 @@ T_FACTORY = {
     "C10": (["T_C10_GrantedUsed", "T_C10_NoOrphan", "T_C10_ChooseOne", "T_C10_TakeInput", "T_C10_PushOutput"], []),
     "C15": (["T_C15_Recorded"], ["T_C15_FirstAvail", "T_C15_InPolicy", "T_C15_OutPolicy", "T_C15_PutWhereOffered"]),
     "C16": ([], ["T_C16_Recipe", "T_C16_SplitterEmits", "T_C16_SplitterDone"]),
-    "C17": (["T_C17_NonNeg", "T_C17_SumT", "T_C17_Setup", "T_C17_Truth"], []),
+    "C17": (["T_C17_NonNeg", "T_C17_SumT", "T_C17_Setup", "T_C17_SetupPartial", "T_C17_Finalises", "T_C17_Truth"], []),
     "C18": (["T_C18_Counters", "T_C18_CountersEOI", "T_C18_AvgOccupancy", "T_C18_AvgOccupancyMid", "T_C18_CycleTime", "T_C18_Monotone", "T_C18_CreationStamp"],
             ["T_C18_CounterEvents"]),
     "C20": (["T_C20_NoCrash", "T_C20_FiniteInstant", "T_C20_Rejects"], []),
@@ -54,6 +54,7 @@ def to_tlc(tr):
                       "recipe": list(n.get("recipe", [1]))})
     edges = [{"type": e["type"], "cap": e.get("cap", 1)} for e in cfg["edges"]]
     T = cfg["T"]
+    t0 = cfg.get("t0", 0)        # initial_time of the environment (ticks); event times are relative to it
     offgrid = bool(tr.get("offgrid"))
     evs = []
     for ev in tr["ev"]:
@@ -99,7 +100,7 @@ def to_tlc(tr):
             es = []
             for x in ev["edges"]:
                 a = x["avg"]
-                es.append({"avgTS": int(round(a * T * 1000)) if a is not None and a >= 0 else -1, "err": x["err"]})
+                es.append({"avgTS": int(round(a * (T + t0) * 1000)) if a is not None and a >= 0 else -1, "err": x["err"]})
             its = []
             for x in ev["items"]:
                 d = {}
@@ -109,7 +110,7 @@ def to_tlc(tr):
                 its.append(d)
             o.update(nodes=ns, edges=es, items=its)
         elif k == "mid":
-            o.update(edges=[{"avgTS": int(round(x["avg"] * ev["t"] * 1000)) if x["avg"] is not None and x["avg"] >= 0 else -1,
+            o.update(edges=[{"avgTS": int(round(x["avg"] * (ev["t"] + t0) * 1000)) if x["avg"] is not None and x["avg"] >= 0 else -1,
                              "err": x["err"]} for x in ev["edges"]])
         elif k in ("exc", "livelock", "harness_error"):
             o["k"] = k
@@ -117,7 +118,7 @@ def to_tlc(tr):
             continue
         evs.append(o)
     quiescent = bool(cfg.get("drains")) and tr["outcome"] == "ok" and bool(tr.get("quiet_end"))
-    return {"cfg": {"nodes": nodes, "edges": edges, "T": T}, "ev": evs, "name": cfg.get("name", ""),
+    return {"cfg": {"nodes": nodes, "edges": edges, "T": T, "T0": t0}, "ev": evs, "name": cfg.get("name", ""),
             "expect": cfg.get("expect", "valid"), "outcome": tr["outcome"], "maxi": tr.get("max_events_per_instant", 0),
             "bound": 200 * (len(nodes) + len(edges)), "quiescent": quiescent, "offgrid": offgrid,
             "family": cfg.get("family", ""), "err": tr.get("err", ""), "orig": json.dumps(cfg)}
